@@ -7,6 +7,7 @@
 package main
 
 import (
+	"os"
 	"fmt"
 	"runtime/debug"
 
@@ -341,11 +342,16 @@ func main() {
 	if run.Thorough() {
 		depth = 4
 	}
-	chainmc.Explore(run, m, chainmc.Config{Depth: depth, Chunk: 2})
+	if os.Getenv("VERIF_C09_ONLY") != "fastsync" { // (debugging aid; evidence then says so)
+		chainmc.Explore(run, m, chainmc.Config{Depth: depth, Chunk: 2})
+	} else {
+		run.Cap("part 1 skipped (VERIF_C09_ONLY=fastsync)")
+	}
+	fastSyncPart(run)
 	run.Set("evaluations", run.Get("crash_points"))
 	run.Set("distinct_nontrivial", run.Get("operations"))
 	run.Assume = append(run.Assume,
 		"crash model: every prefix of the write log with batches atomic (goleveldb journal semantics); torn single writes and reordering below LevelDB are out of scope",
-		"AtomicSwitchToPreliminary (fast-sync switch) is not driven yet; block insertion and fork switches are")
-	run.Finish("fault_enumeration", "for every AddBlock of every explored history (BFS over 11 actions incl. contract receipts, identity updates, snapshot blocks, the epoch macro, 4 fork-switch actions; 4 scenarios incl. a 101-block chain at the version-pruning edge) the write log of the real operation is recorded and EVERY prefix is crash-tested: normal start-up on the surviving image, head roots == loaded trees, head within the retained window and on the reference chain, catch-up to the reference head and roots; plus clean restart == no change")
+		"the fast sync of part 2 performs the call sequence of protocol/fast.go against a source replica (no peers, no snapshot download: the source's WriteSnapshot2 output is imported directly); god-only network, certificates signed by the god")
+	run.Finish("fault_enumeration", "for every AddBlock of every explored history (BFS over 11 actions incl. contract receipts, identity updates, snapshot blocks, the epoch macro, 4 fork-switch actions; 4 scenarios incl. a 101-block chain at the version-pruning edge) the write log of the real operation is recorded and EVERY prefix is crash-tested: normal start-up on the surviving image, head roots == loaded trees, head within the retained window and on the reference chain, catch-up to the reference head and roots; plus clean restart == no change. Part 2: every prefix of the write log of a whole fast sync (header and identity-diff replay onto the preliminary copies, snapshot import, AtomicSwitchToPreliminary, deletion of the old state databases) for 3 source chains x every snapshot height x 3 follower heights: restart, head is the old head or the snapshot height, roots match, catch-up with full blocks to the source head")
 }
